@@ -380,6 +380,12 @@ func (c *lossState) discardKeys(now time.Time, log *slog.Logger, space numberSpa
 	c.spaces[space].maxAcked = -1
 	c.spaces[space].lastAckEliciting = -1
 	c.spaces[space].skipped = nil
+	// Discarding keys indicates forward progress. Reset the PTO backoff,
+	// which may have grown large over a handshake in which none of our
+	// packets in this space were acknowledged.
+	// https://www.rfc-editor.org/rfc/rfc9002.html#section-6.2.2-3
+	// https://www.rfc-editor.org/rfc/rfc9002.html#appendix-A.4
+	c.ptoBackoffCount = 0
 	c.scheduleTimer(now)
 	if logEnabled(log, QLogLevelPacket) {
 		logBytesInFlight(log, c.cc.bytesInFlight)
